@@ -89,6 +89,20 @@ impl QFiles {
         let shape = query_shape_specs(tier.pick(shape_n.0, shape_n.1), false);
         let mut big = deep_specs(tier);
         big.extend(dense_specs(tier).into_iter().filter(|s| s.cfg.block_size.is_some()));
+        // mixed framing inside one block: keys and values whose lengths need 1-, 2- and 3-byte
+        // varints, all in a single block (block size never reached), on every kind of slot position
+        {
+            use vlib::fam::Shape;
+            let shapes: Vec<Shape> = [(1, 0), (2, 130), (130, 16400), (1, 5), (3, 128), (2, 16384), (1, 127), (200, 1), (2, 2), (1, 20000), (2, 0), (1, 1)]
+                .iter()
+                .map(|(k, v)| Shape { klen: *k, vlen: *v })
+                .collect();
+            for iv in [Some(1), Some(3), None] {
+                for l in [0u8, 2] {
+                    big.push(FileSpec::new(FileCfg::layout(Some(usize::MAX), iv, l), EntrySpec::Shapes { shapes: shapes.clone(), wide: false }));
+                }
+            }
+        }
         // maximal index depths
         for l in [254u8, 255] {
             big.push(FileSpec::new(FileCfg::layout(Some(1024), Some(2), l), EntrySpec::Uniform { n: 5, klen: 600, vlen: 1, wide: false }));
